@@ -31,7 +31,11 @@ ERRORS = [-32601, -32000, -32602]
 CARRIERS = ["stdio", "http-json", "http-sse", "legacy-sse", "legacy-sse-event-first"]
 # the same legacy carrier with UNTYPED events (no "event:" field: the default type "message" applies); run for the
 # conversations flagged "untyped" (all single steps, everything that carries an endpoint-looking text)
-UNTYPED_CARRIERS = ["legacy-sse-untyped", "legacy-sse-untyped-event-first"]
+UNTYPED_CARRIERS = ["legacy-sse-untyped", "legacy-sse-untyped-event-first",
+                    # Streamable HTTP whose SSE bodies hold untyped, properly terminated message events followed by the
+                    # unterminated beginning of a further event (which the grammar discards): nothing of one body may
+                    # reach the reading of the next
+                    "http-sse-trailing-partial-event"]
 
 
 def result_for(helper: str, text: str) -> Dict[str, Any]:
@@ -268,7 +272,7 @@ def run_carrier(carrier: str, steps: List[dict], driver: str = "helpers") -> Dic
                             cm = stdio_client(seams.stdio_params())
                         async with cm as (read, write):
                             info["outcomes"] = await drive(read, write, steps, log, q)
-            elif carrier in ("http-json", "http-sse"):
+            elif carrier in ("http-json", "http-sse", "http-sse-trailing-partial-event"):
                 from chuk_mcp.transports.http.http_client import http_client
                 from chuk_mcp.transports.http.parameters import StreamableHTTPParameters
 
@@ -290,7 +294,11 @@ def run_carrier(carrier: str, steps: List[dict], driver: str = "helpers") -> Dic
                     if carrier == "http-json":
                         body = json.dumps(msgs[0] if len(msgs) == 1 else msgs, ensure_ascii=False).encode("utf-8")
                         return httpx.Response(200, headers={"content-type": "application/json"}, content=body)
-                    body = "".join("event: message\ndata: " + json.dumps(m, ensure_ascii=False) + "\n\n" for m in msgs)
+                    if carrier == "http-sse-trailing-partial-event":
+                        body = "".join("data: " + json.dumps(m, ensure_ascii=False) + "\n\n" for m in msgs) + \
+                            'event: ping\ndata: {"jsonrpc"'
+                    else:
+                        body = "".join("event: message\ndata: " + json.dumps(m, ensure_ascii=False) + "\n\n" for m in msgs)
                     return httpx.Response(200, headers={"content-type": "text/event-stream"}, content=body.encode("utf-8"))
 
                 with patched_httpx(handler):
@@ -568,7 +576,8 @@ def run(tier: str, only=None) -> core.Result:
         "Streamable HTTP with JSON body; legacy SSE in both orders of (202 acknowledgement, answer event); plus 37 steps whose result, "
         "error message and notification params carry an endpoint-looking text (/messages/, /mcp, http://x/mcp?a=1): alone, paired with "
         "each other and paired (both orders) with the reduced step set; those and all single-step conversations additionally over "
-        "legacy SSE with UNTYPED events (both orders); a reduced conversation set (26 single steps, 4 x 26 pairs starting with "
+        "legacy SSE with UNTYPED events (both orders) and over Streamable HTTP whose SSE bodies end in the unterminated beginning of a "
+        "further event; a reduced conversation set (26 single steps, 4 x 26 pairs starting with "
         "initialize) additionally with every carrier obtained through transports.create_client, transports.create_transport, "
         "create_http_parameters_from_url / create_sse_parameters_from_url, try_sse_with_fallback and try_http_with_sse_fallback "
         "(the scripted server answers detect_transport_type's probes as an HTTP-only, HTTP+SSE, SSE-only or undetectable server, "
